@@ -332,7 +332,7 @@ def measure_cap(build, args=""):
     return int(last), None
 
 
-def gen_big_bursts(rng):
+def gen_big_bursts(rng, quick=True):
     """publisher publishes far more than any internal bound (1500, 5000) without yielding: publishing
     never blocks, the default port delivers the last ring-full, the v2 port everything"""
     cases = [
@@ -344,6 +344,8 @@ def gen_big_bursts(rng):
     ]
     n = rng.choice([1025, 1300, 2049])
     cases.append([("S", 0) + CONV_ALL, ("ST", 1), ("b", n), ("T",), ("b", n), ("T",)])
+    if quick:
+        cases = [cases[0], cases[1], cases[4]]
     return [{"poison": [], "ops": renumber(c), "kind": "big_burst"} for c in cases]
 
 
@@ -385,36 +387,55 @@ def run(chk):
     gen_cap = cap1 if 0 < cap1 <= 64 else 16
 
     cases = load_corpus()
-    cases += gen_big_bursts(chk.rng)
+    cases += gen_big_bursts(chk.rng, quick)
     cases += gen_exhaustive(gen_cap, 4 if quick else 5)
     cases += gen_exhaustive_starting(gen_cap, 4 if quick else 5)
     cases += gen_exhaustive_drop(gen_cap, 5 if quick else 6)
     cases += gen_exhaustive_churn(5 if quick else 6)
-    cases += gen_random(chk.rng, gen_cap, (1500 if quick else 20000) * factor)
+    cases += gen_random(chk.rng, gen_cap, (1000 if quick else 20000) * factor)
     lines = [sc_line(c) for c in cases]
     impl1 = run_harness(b1, "eng_outport", lines, shards=8)
     impl2 = run_harness(b2, "eng_outport", lines, shards=8)
     # v2 port created with allow_duplicate_subscription = false (cfg-gated hook constructor)
     impl3 = run_harness(b2, "eng_outport", lines, shards=8, args="--nodup")
 
+    def split_calls(lines_):
+        res, calls = [], []
+        for l in lines_:
+            if " # " in l:
+                r, k = l.split(" # ", 1)
+            else:
+                r, k = l, None          # Blocked / Panicked
+            res.append(r)
+            calls.append(k)
+        return res, calls
+
+    impl1, calls1 = split_calls(impl1)
+    impl2, calls2 = split_calls(impl2)
+    impl3, calls3 = split_calls(impl3)
+
     def obs(i):
         return "Blocked" if i in ("Blocked", "Panicked") else f"(Done {i})"
 
+    def okc(k):
+        return "true" if k is None else f"check_C16_calls sc {k}"
+
     exprs = []
-    for c, i1, i2, i3 in zip(cases, impl1, impl2, impl3):
+    for c, i1, i2, i3, k1, k2, k3 in zip(cases, impl1, impl2, impl3, calls1, calls2, calls3):
         t = sc_term(c)
-        exprs.append(f"let sc := {t} in let m1 := X1.result {cap}%nat sc in let m2 := X2.result true sc in "
-                     f"let m3 := X2.result false sc in "
+        exprs.append(f"let sc := {t} in let b1 := X1.both {cap}%nat sc in let b2 := X2.both true sc in "
+                     f"let b3 := X2.both false sc in let m1 := fst b1 in let m2 := fst b2 in let m3 := fst b3 in "
                      f"(m1, check_C16_obs false false {cap}%nat sc {obs(i1)}, check_C16 false {cap}%nat sc m1, "
                      f"m2, check_C16_obs true false {cap}%nat sc {obs(i2)}, check_C16 true {cap}%nat sc m2, "
-                     f"m3, check_C16_obs true true {cap}%nat sc {obs(i3)}, check_C16_nodup {cap}%nat sc m3)")
+                     f"m3, check_C16_obs true true {cap}%nat sc {obs(i3)}, check_C16_nodup {cap}%nat sc m3, "
+                     f"(snd b1, {okc(k1)}), (snd b2, {okc(k2)}), (snd b3, {okc(k3)}))")
     model = coq_eval("C16", IMPORTS, exprs)
 
     distinct = set()
     lagged = 0
-    for c, i1, i2, i3, mv in zip(cases, impl1, impl2, impl3, model):
+    for c, i1, i2, i3, k1, k2, k3, mv in zip(cases, impl1, impl2, impl3, calls1, calls2, calls3, model):
         t = parse_term(mv)
-        m1, o1, om1, m2, o2, om2, m3, o3, om3 = t[1:]
+        m1, o1, om1, m2, o2, om2, m3, o3, om3, cc1, cc2, cc3 = t[1:]
         chk.coverage["evaluations"] += 3
         chk.count("kind." + c["kind"])
         for o in c["ops"]:
@@ -433,6 +454,29 @@ def run(chk):
             lagged += 1
         if m3 != m2:
             chk.count("cases_where_a_subscription_was_replaced")
+        # converter invocations: sids whose count is causally determined (no failing handler on the
+        # receiver, converter is a harness closure)
+        sub_ops = [o for o in c["ops"] if o[0] in ("S", "SS", "ST")]
+        poisoned = {a for a, _ in c["poison"]}
+        judged = [j for j, o in enumerate(sub_ops) if o[0] != "ST" and o[1] not in poisoned]
+        for ver, kk, cc in (("default", k1, cc1), ("output-port-v2", k2, cc2),
+                            ("output-port-v2, allow_duplicate_subscription=false", k3, cc3)):
+            if kk is None:
+                continue
+            mcount, korc = cc[1], cc[2]
+            kv = parse_term(kk)
+            cdesc = (f"build: {ver}\nharness line (eng_outport stdin): {line}\ncoq scenario: {sc_term(c)}\n"
+                     f"implementation, converter inputs per subscription: {kk[:3000]}\n"
+                     f"model, converter invocations per subscription: {show_term(mcount)}\n")
+            if korc != "true":
+                chk.violation(f"{ver} port: a stopped subscriber is not dropped (its converter keeps running)",
+                              "C16 oracle check_C16_calls rejects the converter invocations: after the receiver has stopped "
+                              "at most one further message may reach the converter's Some branch (dead subscriber inert)\n" + cdesc)
+            elif any(len(kv[j]) != mcount[j] for j in judged if j < len(kv) and j < len(mcount)):
+                chk.coverage["disagreements_checked"] += 1
+                chk.violation(f"model/implementation disagree on converter invocations ({ver} port)",
+                              "correspondence E1:outport converter invocation counts differ (oracle accepts)\n" + cdesc,
+                              failing_input=False)
         for ver, impl, mres, orc, orc_m in (("default", i1, m1, o1, om1), ("output-port-v2", i2, m2, o2, om2),
                                             ("output-port-v2, allow_duplicate_subscription=false", i3, m3, o3, om3)):
             if impl in ("Blocked", "Panicked"):
